@@ -76,7 +76,7 @@ func condOnBoolField(cd ir.Cond, f interface{ Name() string }, loads func(ssa.Va
 func pushFunc(c *chk.Ctx) *ssa.Function {
 	for _, st := range c.P.FieldStores(c.M.SCallID) {
 		fa := st.Addr.(*ssa.FieldAddr)
-		if _, fresh := ir.NormCell(fa.X).(*ssa.Alloc); !fresh {
+		if !freshOwner(c, fa.X) {
 			f := st.Parent()
 			// the registration may live in a private helper: the push function is the outermost
 			// private function that (solely) calls it
